@@ -52,7 +52,9 @@ fn set_field(frame: &mut [u32], first_bit: usize, nbits: usize, v: u32) {
 pub fn icao_sweep(spec: &str, out: &str) -> Result<(), String> {
     let spec: Value = serde_json::from_reader(File::open(spec).map_err(|e| e.to_string())?).map_err(|e| e.to_string())?;
     let mut w = BufWriter::new(File::create(out).map_err(|e| e.to_string())?);
+    let mut idx = 0u64;
     for c in spec["cases"].as_array().ok_or("no cases")? {
+        idx += 1;
         let base = nibs(&c["nib"])?;
         let field = c["field"].as_str().unwrap_or("ap").to_string();
         let len = base.len() * 4;
@@ -103,7 +105,7 @@ pub fn icao_sweep(spec: &str, out: &str) -> Result<(), String> {
             }
         }
         let ev = json!({
-            "e": "icaosweep", "id": c["id"], "nib": base, "field": field, "step": step,
+            "e": "icaosweep", "i": idx, "id": c["id"], "nib": base, "field": field, "step": step,
             "nruns": merged.len(),
             "runs": merged.iter().take(2000).map(|r| json!([r.0, r.1, r.2])).collect::<Vec<_>>(),
         });
@@ -147,7 +149,7 @@ pub fn country(out: &str) -> Result<(), String> {
     }
     let mut w = BufWriter::new(File::create(out).map_err(|e| e.to_string())?);
     let ev = json!({
-        "e": "country", "n": N24,
+        "e": "country", "i": 1, "n": N24,
         "runs": merged.iter().map(|r| json!({"lo": r.0, "hi": r.1, "reg": r.2})).collect::<Vec<_>>(),
     });
     serde_json::to_writer(&mut w, &ev).map_err(|e| e.to_string())?;
@@ -163,7 +165,9 @@ pub fn country(out: &str) -> Result<(), String> {
 pub fn burst(spec: &str, out: &str, _workdir: &str) -> Result<(), String> {
     let spec: Value = serde_json::from_reader(File::open(spec).map_err(|e| e.to_string())?).map_err(|e| e.to_string())?;
     let mut w = BufWriter::new(File::create(out).map_err(|e| e.to_string())?);
+    let mut idx = 0u64;
     for c in spec["cases"].as_array().ok_or("no cases")? {
+        idx += 1;
         let base = nibs(&c["nib"])?;
         let maxlen = c["maxlen"].as_u64().unwrap_or(12) as usize;
         let lo = c["lo"].as_u64().unwrap_or(6) as usize;
@@ -229,7 +233,7 @@ pub fn burst(spec: &str, out: &str, _workdir: &str) -> Result<(), String> {
         accepted.sort();
         accepted.truncate(cap);
         let ev = json!({
-            "e": "burst", "id": c["id"], "nib": base, "maxlen": maxlen, "lo": lo, "hi": hi,
+            "e": "burst", "i": idx, "id": c["id"], "nib": base, "maxlen": maxlen, "lo": lo, "hi": hi,
             "tried": crate::proj::clamp(tried as i64), "tried_k": tried / 1000,
             "accepted": crate::proj::clamp(acc as i64), "panics": crate::proj::clamp(panics as i64),
             "acc": accepted.iter().map(|a| json!({"start": a.0, "len": a.1, "pat": crate::proj::clamp(a.2 as i64)})).collect::<Vec<_>>(),
